@@ -194,6 +194,8 @@ pub fn run_detached(seed: u64, yield_only: bool) -> Outcome {
         crate::ctl::ctl().begin(crate::ctl::MODE_YIELD, seed);
     } else {
         th::begin(seed, intensity);
+    }
+    {
         use ractor::verif::pt;
         match p.below(4) {
             0 => crate::ctl::ctl().set_rendezvous(pt::SEND_AFTER_ADMIT, pt::DRAIN_AFTER_CLOSE),
@@ -248,6 +250,9 @@ pub fn run_detached(seed: u64, yield_only: bool) -> Outcome {
         let (c, tr, mut sp) = (cell.clone(), trace.clone(), p.fork());
         let times = sp.range(1, 3);
         clients.push(Box::new(move || drain_client(&tr, &c, 500 + d as u32, times, &mut sp, spin)));
+    }
+    if yield_only {
+        clients = th::stagger(clients, &mut p.fork());
     }
     th::run_clients(clients);
     if yield_only {
